@@ -227,8 +227,15 @@ func (e Engine) Generate(prop, tier string, run int, seed uint64) *kernel.Scenar
 	for i := 0; i < nch; i++ {
 		n := 2 + r.Weighted([]int{7, 3, 1})
 		set := func(k string, v int) { sc.Config[fmt.Sprintf("c%d.%s", i, k)] = int64(v) }
+		own := r.Intn(n)
+		if wr := kernel.NewRand(kernel.Derive(seed, "wide", i)); wr.Bool(0.08) {
+			// many participants, around the count at which the signature slots'
+			// keys get a digit more
+			n = []int{9, 10, 10, 11}[wr.Intn(4)]
+			own = wr.Intn(n)
+		}
 		set("n", n)
-		set("own", r.Intn(n))
+		set("own", own)
 		set("app", r.Intn(2))
 		set("rank", ranks[i])
 		set("nonce", r.Intn(1000))
